@@ -8,12 +8,12 @@ stream.  `clauseVC op V` is the constraint `parse_single_constraint` builds once
 text have been recognised (token level; the recogniser is tied to the code by the parse stream).
 Proved: for every operator except `!=V.*`, membership equals the reference on every probe that is *regular*
 for the literal (the candidate equals the literal or has a different release — the second and third disjunct of
-the property's guard); for `==V.*` on *every* probe.  For final-release literals (first disjunct of the guard) the ordered comparisons, `==` and `==V.*` are
-proved on *every* candidate, including the exclusive-comparison rules.  Not proved (kept as
-`*_full_statement`): `~=V` on candidates of V's own release, `!=V.*`, and sets of more than two clauses.
+the property's guard); for `==V.*` on *every* probe.  For final-release literals (first disjunct of the guard) every operator the guard admits — ordered comparisons,
+`==`, `~=`, `==V.*`, `!=V.*` — is proved on *every* candidate, including the exclusive-comparison rules.
 -/
 import PoetryVerif.Proofs.VRangeSpec
 import PoetryVerif.Proofs.VRangeSpecFinal
+import PoetryVerif.Proofs.VRangeSpecSet
 import PoetryVerif.Proofs.VRangeDiff
 
 set_option linter.unusedSimpArgs false
@@ -106,6 +106,16 @@ theorem wildcard_membership_eq_ref (V v : Version) (hV : V.wf = true) (hfin : V.
 example : ∃ V v, Version.parse "1.2" = .ok V ∧ Version.parse "1.3.dev0+l" = .ok v ∧ V.isFinal = true ∧
     Clause.contains ⟨.eqStar, V⟩ v = false := ⟨_, _, rfl, rfl, by decide, by decide⟩
 
+/-- **`!=V.*` equals the reference on every candidate** (no guard): the parser builds the union
+`<V.dev0 || >=N.dev0`, and the real `VersionUnion.allows` (through `_inverted`) is evaluated. -/
+theorem wildcard_ne_membership_eq_ref (V v : Version) (hV : V.wf = true) (hfin : V.isFinal = true)
+    (hv : v.wf = true) :
+    ∃ c, clauseVC .neStar V = .ok c ∧ c.allows v = .ok (Clause.contains ⟨.neStar, V⟩ v) :=
+  ⟨_, neStar_range V hfin hV, neStar_allows V v hfin hV hv⟩
+
+example : ∃ V v, Version.parse "1.2" = .ok V ∧ Version.parse "1.2.post1.dev0+l" = .ok v ∧ V.isFinal = true ∧
+    Clause.contains ⟨.neStar, V⟩ v = false := ⟨_, _, rfl, rfl, by decide, by decide⟩
+
 /-! ## final-release literals: every candidate (first disjunct of the guard) -/
 
 /-- **`<V` rejects the pre-releases of V** (and everything else of V's release), for a final release V, in the
@@ -130,29 +140,44 @@ example : ∃ V w, Version.parse "1.0" = .ok V ∧ Version.parse "1.0.post1+loca
     relKey w = relKey V ∧ Version.cmp w V = .gt := ⟨_, _, rfl, rfl, by decide, by decide, by decide⟩
 
 /-- **membership of one clause equals the reference on *every* candidate** when the literal is a final release,
-for the ordered comparisons, `==` and `==V.*` — the first disjunct of the guard. -/
+for every operator but `!=V` (excluded by the guard): the ordered comparisons, `==`, `~=`, `==V.*`, `!=V.*` —
+the first disjunct of the guard, for single clauses. -/
 theorem final_literal_membership_eq_ref (op : SOp) (V v : Version) (hV : V.wf = true) (hfin : V.isFinal = true)
-    (hop : op = .lt ∨ op = .le ∨ op = .gt ∨ op = .ge ∨ op = .eq ∨ op = .eqStar) (hv : v.wf = true) :
+    (hop : op ≠ .ne) (hprec : op = .compat → 2 ≤ V.precision) (hv : v.wf = true) :
     ∃ c, clauseVC op V = .ok c ∧ c.allows v = .ok (Clause.contains ⟨op, V⟩ v) := by
   obtain ⟨_, _, _, f4⟩ := final_parts hfin
-  by_cases hr : relKey v = relKey V
-  · rcases hop with rfl | rfl | rfl | rfl | rfl | rfl
+  cases op with
+  | ne => exact absurd rfl hop
+  | eqStar => exact wildcard_membership_eq_ref V v hV hfin hv
+  | neStar => exact wildcard_ne_membership_eq_ref V v hV hfin hv
+  | compat =>
+    refine ⟨_, rfl, ?_⟩
+    simp only [VC.allows, RC.allows, Clause.contains]; congr 1
+    exact compat_final V v hV hfin (hprec rfl) hv
+  | ge =>
+    refine ⟨_, rfl, ?_⟩
+    simp only [VC.allows, RC.allows, Clause.contains]; congr 1
+    exact ge_final V v hV hfin hv
+  | lt =>
+    by_cases hr : relKey v = relKey V
     · exact ⟨_, rfl, by rw [(lt_rejects_own_release V v hV hfin hv hr).1, (lt_rejects_own_release V v hV hfin hv hr).2]⟩
+    · exact clause_membership_eq_ref _ V v ⟨hV, fun _ _ => f4, fun h => by cases h⟩ ⟨by simp, by simp⟩ hv (Or.inr hr)
+  | gt =>
+    by_cases hr : relKey v = relKey V
+    · exact ⟨_, rfl, by rw [(gt_rejects_own_release V v hV hfin hv hr).1, (gt_rejects_own_release V v hV hfin hv hr).2]⟩
+    · exact clause_membership_eq_ref _ V v ⟨hV, fun _ _ => f4, fun h => by cases h⟩ ⟨by simp, by simp⟩ hv (Or.inr hr)
+  | le =>
+    by_cases hr : relKey v = relKey V
     · refine ⟨_, rfl, ?_⟩
       simp only [VC.allows, RC.allows, Clause.contains]; congr 1
       exact le_final V v hV hfin hv hr
-    · exact ⟨_, rfl, by rw [(gt_rejects_own_release V v hV hfin hv hr).1, (gt_rejects_own_release V v hV hfin hv hr).2]⟩
-    · refine ⟨_, rfl, ?_⟩
-      simp only [VC.allows, RC.allows, Clause.contains]; congr 1
-      exact ge_final V v hV hfin hv
+    · exact clause_membership_eq_ref _ V v ⟨hV, fun _ _ => f4, fun h => by cases h⟩ ⟨by simp, by simp⟩ hv (Or.inr hr)
+  | eq =>
+    by_cases hr : relKey v = relKey V
     · refine ⟨_, rfl, ?_⟩
       simp only [VC.allows, RC.allows, Clause.contains]; congr 1
       exact eq_final V v hV hfin hv hr
-    · exact wildcard_membership_eq_ref V v hV hfin hv
-  · rcases hop with rfl | rfl | rfl | rfl | rfl | rfl
-    all_goals first
-      | exact wildcard_membership_eq_ref V v hV hfin hv
-      | exact clause_membership_eq_ref _ V v ⟨hV, fun _ _ => f4, fun h => by cases h⟩ ⟨by simp, by simp⟩ hv (Or.inr hr)
+    · exact clause_membership_eq_ref _ V v ⟨hV, fun _ _ => f4, fun h => by cases h⟩ ⟨by simp, by simp⟩ hv (Or.inr hr)
 
 /-! ## two clauses: the comma -/
 
@@ -201,6 +226,57 @@ theorem two_clause_membership_eq_ref (o1 o2 : SOp) (V1 V2 v : Version) (m1 m2 : 
       · exact Or.inr h
   rw [hex v hv hreg, a1, a2]
   simp [contains]
+
+/-- **a comma-joined specifier set of any length** of ordered comparisons / `==` over literals without local
+label: `parse_constraint` folds `intersect` over the clauses' constraints (`groupVC`); the fold is defined and its
+membership equals the reference conjunction on candidates regular for every literal. -/
+theorem set_membership_eq_ref (first : Clause) (rest : List Clause) (mem : Clause → RC)
+    (hmem : ∀ c ∈ first :: rest, memberOf c.op c.lit = some (mem c))
+    (hok : ∀ c ∈ first :: rest, ClauseOk c.op c.lit ∧ c.lit.loc = none)
+    (v : Version) (hv : v.wf = true) (hreg : ∀ c ∈ first :: rest, Reg1 v c.lit) :
+    ∃ r, groupVC (mem first) (rest.map mem) = .ok r ∧ r.allows v = .ok (contains (first :: rest) v) := by
+  -- each member: well-formed, its only bound is the literal, its membership is the clause's
+  have one : ∀ c ∈ first :: rest, (mem c).WF ∧ (∀ e ∈ (mem c).bounds, e = c.lit) ∧
+      (mem c).allows v = Clause.contains c v := by
+    intro c hc
+    obtain ⟨e1, b1, w1⟩ := memberOf_spec c.op c.lit (mem c) (hmem c hc)
+    have hop : c.op ≠ .eqStar ∧ c.op ≠ .neStar := by
+      constructor <;> (intro e; have := hmem c hc; rw [e] at this; simp [memberOf] at this)
+    obtain ⟨x, hx, ax⟩ := clause_membership_eq_ref c.op c.lit v (hok c hc).1 hop hv (hreg c hc)
+    rw [e1] at hx; cases hx
+    refine ⟨w1 (hok c hc).1.1, b1, ?_⟩
+    simpa [VC.allows] using ax
+  let L := (first :: rest).map (fun c => c.lit)
+  have hL : ∀ e ∈ L, e.loc = none := by
+    intro e he
+    obtain ⟨c, hc, rfl⟩ := List.mem_map.1 he
+    exact (hok c hc).2
+  have hregL : ∀ e ∈ L, Reg1 v e := by
+    intro e he
+    obtain ⟨c, hc, rfl⟩ := List.mem_map.1 he
+    exact hreg c hc
+  have hf := one first (by simp)
+  obtain ⟨r, hr1, hr2⟩ := foldIntersect_exact L hL v hv hregL (rest.map mem) (.single (mem first))
+    ((mem first).allows v) trivial
+    (by intro c hc; simp [VC.flatten] at hc; subst hc; exact hf.1)
+    (by intro e he
+        have : e = first.lit := hf.2.1 e (by simpa [VC.bounds] using he)
+        exact List.mem_map.2 ⟨first, by simp, this.symm⟩)
+    rfl
+    (by intro n hn
+        obtain ⟨c, hc, rfl⟩ := List.mem_map.1 hn
+        have hc' := one c (by simp [hc])
+        exact ⟨hc'.1, fun e he => List.mem_map.2 ⟨c, by simp [hc], (hc'.2.1 e he).symm⟩⟩)
+  refine ⟨r, hr1, ?_⟩
+  rw [hr2, hf.2.2]
+  congr 1
+  simp only [contains, List.all_cons, List.all_map]
+  congr 1
+  apply bool_eq_of_iff
+  simp only [List.all_eq_true, Function.comp]
+  constructor
+  · intro h c hc; rw [← (one c (by simp [hc])).2.2]; exact h c hc
+  · intro h c hc; rw [(one c (by simp [hc])).2.2]; exact h c hc
 
 /-! ## Poetry's own operators -/
 
@@ -267,8 +343,10 @@ def setVC : List Clause → PyM VC
     cs.foldlM (fun acc d => do VC.intersect acc (← clauseVC d.op d.lit)) first
 
 /-- C04 at full strength: membership equals the reference for every specifier set and candidate in the
-guard.  Proved: single clauses on regular candidates (`clause_membership_eq_ref`, `wildcard_membership_eq_ref`
-without guard) and two-clause sets of ordered comparisons (`two_clause_membership_eq_ref`).  Known to need two
+guard.  Proved: single clauses on regular candidates (`clause_membership_eq_ref`), on every candidate for final
+literals (`final_literal_membership_eq_ref`, wildcards included), and sets of any length of ordered comparisons /
+`==` on candidates regular for every literal (`set_membership_eq_ref`).  Not proved: sets containing `~=`, `!=` or
+wildcard clauses, and sets on candidates of a literal's own release.  Known to need two
 more hypotheses (check stream, known findings "sibling-of-another-literal", "local-min-intersect"): regularity
 per literal, and no `==V` clause meeting a bound that is a local build of `V`. -/
 def membership_eq_ref_full_statement : Prop :=
